@@ -508,7 +508,8 @@ def build_unit(spec_path, repo, contracts_dir, shim_table, force_extern=None, va
         fn_texts.append((fs, '//@FN< %s\n%s%s\n//@FN> %s\n' % (fs.name, spin, woven, fs.name)))
         fn_info[fs.name] = dict(src=rel, line=s.lineno(a), impl=hdr, text=text, props=fs.props, extern=fs.extern,
                                 shims=fs.shims, degraded=degraded, src_name=fs.src_name, implname=fs.impl,
-                                imported=fs.opts.get('imported'))
+                                imported=fs.opts.get('imported'),
+                                local=[q for q in fs.opts.get('local', '').split(',') if q])
 
     # the round-trip check against the files themselves
     for rel, t in roundtrip:
